@@ -13,6 +13,7 @@ import Driver.C07
 import Driver.C13
 import Driver.C18
 import Driver.C16
+import Driver.C19
 open Lean CKT CKT.Driver
 
 def dispatch (j : Json) : Except String Json := do
@@ -32,6 +33,7 @@ def dispatch (j : Json) : Except String Json := do
   else if op.startsWith "c13." then c13 op j
   else if op.startsWith "c18." then c18 op j
   else if op.startsWith "c16." then c16 op j
+  else if op.startsWith "c19." then c19 op j
   else throw s!"unknown op {op}"
 
 def handle (line : String) : String :=
